@@ -940,7 +940,7 @@ func (k *kase) checkState(st *step, eff *effect) []problem {
 			recv interface{}
 			how  *step
 		}{{ov.lit, ov.ptr.Interface(), nil}, {"a fresh " + s.ownerLit(ov.ok), fresh.Interface(), nil},
-			{ov.lit + " with Association(..).Unscoped()", ov.ptr.Interface(), readUnscoped}, {"a fresh " + s.ownerLit(ov.ok) + " with Association(..).Unscoped()", fresh.Interface(), readUnscoped}} {
+			{"a fresh " + s.ownerLit(ov.ok) + " with Association(..).Unscoped()", fresh.Interface(), readUnscoped}} {
 			a := k.assoc(via.recv, via.how)
 			n := a.Count()
 			if a.Error != nil {
@@ -1439,7 +1439,7 @@ var Engine = &core.Engine{
 		"key shapes: belongs to a record with an application-assigned string key, belongs to a record with a two-column (integer,string) key through value key columns, has many through a two-column foreign key, many-to-many with two-column keys on both sides - in these three the keys are drawn from pools in which a part holds its zero value (site 0, slug \"\", locale \"\") and keys share parts) " +
 		"x owner mode (one owner value; two owner values; a slice of 2..3 owner values - []Owner or []*Owner, the latter also passed by value - incl. calls on single elements) x scoping (scoped; Unscoped; mixed) are enumerated from the case index; " +
 		"owners/targets/links are seeded with raw SQL (bystander owners, a decoy polymorphic owner type with equal keys, optionally links of the operated owners; soft-delete kinds: 0..3 leftovers of earlier removals that are not links - soft-deleted target rows whose key column still names an owner, soft-deleted join rows); 3..8 random steps Append/Replace/Delete/Clear/Count/Find (every one of them, Count and Find included, through Association(..) or Association(..).Unscoped() according to the scoping of the case; writes on soft-delete kinds also behind db.Unscoped()) with targets drawn from brand-new (key from the database), brand-new with a key chosen by the application, a value of a record that an earlier Unscoped step of the sequence removed for good (key still set), existing unlinked, already linked, linked to another owner, duplicate-in-call, and (Delete) a record without a row, in literal forms &T, T, []T, &[]T, []*T; " +
-		"after every step raw-SQL links and target rows, Count/Find (operated and fresh value, each through a scoped and through an Unscoped() association handle) and the in-memory relation field are compared with the link-set model; distinct = (kind, key pools, owner mode, slice element kind, scoping, per step: op, unscoped, slice-level, target classes, changed); non-trivial = at least two steps changed the link set",
+		"after every step raw-SQL links and target rows, Count/Find (operated value and fresh value through a scoped handle, fresh value also through an Unscoped() association handle) and the in-memory relation field are compared with the link-set model; distinct = (kind, key pools, owner mode, slice element kind, scoping, per step: op, unscoped, slice-level, target classes, changed); non-trivial = at least two steps changed the link set",
 	Assumptions: []string{
 		"every association call is made on a fresh db.Model(value).Association(name) (association handles are not reusable)",
 		"has-one / belongs-to Append and Replace get exactly one target (&T) per owner; Append/Replace on a slice of owners get exactly one argument per owner (association.go: ErrInvalidValueOfLength otherwise)",
